@@ -17,6 +17,7 @@ from harness.props.c08 import dump_to_schema
 
 ID = "C03"
 TIE_MODULES = ["StathamModel.Tie"]
+PROOF_MODULES = ["StathamModel.Lemmas.SerOk", "StathamModel.Lemmas.ParseNF"]
 ASSUMPTIONS = ["element trees are acyclic", "the specification oracle is the Lean Draft-6 definition (spec op), with the three documented deviations"]
 N_TREES = {"quick": 700, "thorough": 20000}
 
